@@ -737,9 +737,13 @@ static void take_sample(void)
     S->nsamples = n + 1;
 }
 
+static unsigned case_tick;
+unsigned vrt_case_tick(void) { return ++case_tick; }
+
 static void run_one(uint64_t idx)
 {
     S->cur_case = (int64_t)idx;
+    case_tick = 0;
     S->nops = 0;
     S->entry = NULL;
     S->state = NULL;
